@@ -107,6 +107,7 @@ class Contract:
         self.probe = d.get("probe", False)         # known-finding probe: a variant verified WITHOUT a usage assumption
         self.probe_only = d.get("probe_only", [])  # ... of which only these obligations (substrings) are reported
         self.drop_callee_ensures = d.get("drop_callee_ensures", {})   # callee contract -> ensures-name prefixes not assumed
+        self.closure = d.get("closure", {})        # nested function: free variables of the enclosing call, as symbolic values of these sorts
         self.no_wf = d.get("no_wf", False)        # an initialiser: the receiver's well-formedness is established here, not assumed at entry
         self.prefer = d.get("prefer")             # "cvc5": try cvc5 before z3 on this function's obligations
         self.ctor = d.get("ctor", False)          # constructor: invariant asserted at exit only
@@ -514,6 +515,12 @@ class Task:
             if isinstance(us, UnionSort):
                 uc = st.locals[n].comps[1:] if isinstance(sort, OptSort) else st.locals[n].comps
                 st.assume(z3.Implies(uc[0], uc[2] != null))   # an object alternative of a union is a real object
+        for n, srt in c.closure.items():      # closure variables of a nested function: arbitrary values of the declared sorts
+            if srt == "py":
+                st.locals[n] = VOpaque(n)
+            else:
+                cs_ = parse_sort(srt)
+                st.locals[n] = V(cs_, [z3.Const(f"{n}.{k}", x) for k, x in enumerate(cs_.comps())])
         if args.vararg or args.kwarg:
             self.dropped.add("*args/**kwargs parameters (opaque values, only passed on)")
             for a in (args.vararg, args.kwarg):
